@@ -16,13 +16,15 @@ use std::collections::HashMap;
 pub const DEF: PropDef = PropDef {
     id: "C07",
     level: "model_checking",
-    rule: "Part A (counters a_*): for each of the 6 orders of introducing 3 variables all 256 functions are built from minterms in one real SddManager, then every one of the 256x256x{And,Or} operand pairs is applied and must return the handle already denoting that truth table (canonicity => exactness); per function: negate, wmc under 3 weight vectors (one with 0/1 weights), enumerate_models, wmc_gradient; exactly_one over all 16 ordered lists of distinct variables declared ExclusiveGroup with (p,1.0) weights, and f AND exactly_one(S) for all 256 f (handle, wmc, gradient). Part B (states/transitions/traces): plain tree search without de-duplication, every node re-executed from a fresh manager, over op sequences {introduce next variable, literal, apply(h_i,h_j,And|Or), negate(h_i), exactly_one(first k)} from start states with n0 variables already introduced and two seed handles (exactly_one of all, (x_old AND x_new) OR NOT x_mid); three alphabets: full (all literals, all ordered pairs, all k), core (literals of newest+oldest variable, pairs i<j, exactly_one of first 2 / of all), mini (literals of newest variable, pairs i<j, negate of newest handle, exactly_one of all); at every leaf additionally a sweep of every op of the (core or full) alphabet on the same manager, so sequences are one longer than the tree depth. quick: universe 6: full depth 2+1 and core depth 3+1 from n0=0..5, mini depth 4+1 from n0=1,3,5. thorough: universe 6 full depth 3+1 (n0=0..5), universe 8 full 2+1 and core 3+1 (n0=0..7), universe 8 mini 4+1 (n0=1,3,5,7), universe 6 mini 5+1 (n0=1,3,5). Every handle carries its truth table over the fixed universe (later variables = don't care); after every op every pool handle is re-checked (enumerate_models, wmc), the result's gradient is checked at each node, and the tracker invariant equal table <=> equal handle must hold over every handle the manager ever returned. Part C (counters c_*): for every budgeted operation (try_literal: 18 cases; try_negate: all 256 functions; try_exactly_one: lists over 1..4 (thorough 6) variables, fresh or with literals present; try_apply: all 16x16x2 pairs over 2 variables and over 3 variables quick = NPN-representative x NPN-representative plus 6 diverse functions squared, thorough = all 256x256x2) operands are prepared sparsely from minterms in a fresh manager, the checkpoints c of an uninterrupted run are counted, then for every k in [0,c+2] a fresh identically prepared manager runs the operation with a deadline callback that answers false from its k-th call on, and for every node budget n in {0} + [nodes before, nodes after + 1]; the result must be Err or Ok(handle denoting the expected table, canonical in that manager); after EVERY run the same manager is used unbudgeted: the same operation, a second route to the same function (De Morgan / double negation / reversed list), the dual apply, (heavy mode) all ordered pairs of the key handles under And/Or and a rebuild of every key function from minterms in the other association order, and a re-check of every tracked handle (enumerate_models + wmc). Bound 2: after every first exhaustion (each k, each n) a second budgeted operation (the same again; thorough also the dual apply) is interrupted at every k2 and every n2, then the manager is used again. Each operation's procedure runs in a forked child so that a stack overflow of a corrupted diagram is a recorded failure. Non-trivial: A = pair of distinct non-complementary non-constant operands whose result differs from both, key (a,b,op); B = op sequence (keys only for depth <= 3, all counted in b_nontrivial_nodes) whose last op yields a non-constant function depending on a variable introduced inside the sequence after a handle existed and on an older variable; C = operation for which at least one interruption strictly inside (k >= 1, or a node budget that let at least one allocation happen / was above the initial count) returned Err and the manager was then used again, key (operation, operands).",
+    rule: "Part A (counters a_*): for each of the 6 orders of introducing 3 variables all 256 functions are built from minterms in one real SddManager, then every one of the 256x256x{And,Or} operand pairs is applied and must return the handle already denoting that truth table (canonicity => exactness); per function: negate, wmc under 3 weight vectors (one with 0/1 weights), enumerate_models, wmc_gradient; exactly_one over all 16 ordered lists of distinct variables declared ExclusiveGroup with (p,1.0) weights, and f AND exactly_one(S) for all 256 f (handle, wmc, gradient). Part B (states/transitions/traces): plain tree search without de-duplication, every node re-executed from a fresh manager, over op sequences {introduce next variable, literal, apply(h_i,h_j,And|Or), negate(h_i), exactly_one(first k)} from start states with n0 variables already introduced and two seed handles (exactly_one of all, (x_old AND x_new) OR NOT x_mid); three alphabets: full (all literals, all ordered pairs, all k), core (literals of newest+oldest variable, pairs i<j, exactly_one of first 2 / of all), mini (literals of newest variable, pairs i<j, negate of newest handle, exactly_one of all); at every leaf additionally a sweep of every op of the (core or full) alphabet on the same manager, so sequences are one longer than the tree depth. quick: universe 6: full depth 2+1 and core depth 3+1 from n0=0..5, mini depth 4+1 from n0=1,3,5. thorough: universe 6 full depth 3+1 (n0=0..5), universe 8 full 2+1 and core 3+1 (n0=0..7), universe 8 mini 4+1 (n0=1,3,5,7), universe 6 mini 5+1 (n0=1,3,5). Every handle carries its truth table over the fixed universe (later variables = don't care); after every op every pool handle is re-checked (enumerate_models, wmc), the result's gradient is checked at each node, and the tracker invariant equal table <=> equal handle must hold over every handle the manager ever returned. Part C (counters c_*): for every budgeted operation (try_literal: 18 cases; try_negate: all 256 functions; try_exactly_one: lists over 1..4 (thorough 6) variables, fresh or with literals present; try_apply: all 16x16x2 pairs over 2 variables and over 3 variables quick = NPN-representative x NPN-representative plus 6 diverse functions squared, thorough = all 256x256x2) operands are prepared sparsely from minterms in a fresh manager, the checkpoints c of an uninterrupted run are counted, then for every k in [0,c+2] a fresh identically prepared manager runs the operation with a deadline callback that answers false from its k-th call on, and for every node budget n in {0} + [nodes before, nodes after + 1]; the result must be Err or Ok(handle denoting the expected table, canonical in that manager); after EVERY run the same manager is used unbudgeted: the same operation, a second route to the same function (De Morgan / double negation / reversed list), the dual apply, (heavy mode) all ordered pairs of the key handles under And/Or and a rebuild of every key function from minterms in the other association order, and a re-check of every tracked handle (enumerate_models + wmc). Bound 2: after every first exhaustion (each k, each n) a second budgeted operation (the same again; thorough also the dual apply) is interrupted at every k2 and every n2, then the manager is used again. Each operation's procedure runs in a forked child so that a stack overflow of a corrupted diagram is a recorded failure. Round-3 additions. Part B: (i) alphabets full and core also contain exactly_one over the k NEWEST variables (lists containing the newest variable but not the oldest); (ii) a fourth alphabet 'budget' (counters b_try_*): introduce next variable, literals of the newest variable, unbudgeted apply of pool pairs i<j, negate of the newest handle, exactly_one(all), exactly_one(2 newest) and the budgeted twins try_apply(i<j, And|Or), try_negate(newest handle), try_exactly_one(all), each under the interruption selectors D(k) = deadline callback false from its k-th call (tree: k in {2,12}; leaf sweep: {1,4,16,64,100000}) and N(j) = node budget of the current node count + j (tree: j in {0,2}; sweep: {0,1,3}; sweep also swapped operand order and try_negate of every handle); Err leaves the pool unchanged, Ok(h) must be the canonical handle of the formula (observed, models, wmc) and is deliberately not added to the pool so the tree shape does not depend on where the subject gives up; Err without the deadline having answered false under a D selector = spurious_exhaustion; after every op the pool is re-checked, so an exhaustion is followed by variable introduction (vtree growth), exactly_one, further budgeted and unbudgeted operations on the same manager, with operands over up to 6 (thorough 8) variables built across introductions; quick: universe 6 depth 2+1 from n0=1..5 (so: budgeted op, then variable introduction, then every op of the sweep alphabet); thorough: also universe 8 depth 2+1 from n0=3..7, universe 6 depth 3+1 from n0=2,4 and universe 8 depth 3+1 from n0=6. Part C: (iii) sufficiency clause: node budgets n1+1 and 2*n1+64, where n1 is the largest node count any run of the same operation on an identically prepared manager ended with, must give Ok (Err = spurious_exhaustion), also for the second operation of bound 2; (iv) deadline and node budget in one budget (4 combinations per operation); (v) try_apply/try_negate under the five other introduction orders of 3 variables (the 6 diverse functions squared; thorough also NPN x NPN); (vi) try_apply (every ordered pair, And|Or) and try_negate over a family of 6 operands on 4 and on 5 variables (parity, majority, x0x1|x2x3(x4), exactly-one, oldest xor newest, implication chain) under ascending and descending introduction order, every k and every n as before (quick: 4 variables ascending = unordered pairs x And|Or, 4 variables descending = unordered pairs x And, 5 variables ascending = 4 pairs; thorough: every ordered pair, both ops, both orders); (vii) try_exactly_one over every ordered list of <=4 distinct variables out of 4 (thorough also out of 5): fresh, with the diagram of the list's tail already built (inner caches hit), and with the listed variables declared ExclusiveGroup (p,1.0) during the call (result wmc and gradient checked, then re-declared Independent), under the ascending and a permuted introduction order. Non-trivial: A = pair of distinct non-complementary non-constant operands whose result differs from both, key (a,b,op); B = op sequence (keys only for depth <= 3, all counted in b_nontrivial_nodes) whose last op yields a non-constant function depending on a variable introduced inside the sequence after a handle existed and on an older variable; C = operation for which at least one interruption strictly inside (k >= 1, or a node budget that let at least one allocation happen / was above the initial count) returned Err and the manager was then used again, key (operation, operands); B budget alphabet = sequence (depth <= 3) in which an earlier budgeted op returned Err after >= 1 passed checkpoint or >= 1 allocated node and the same manager was then used by the last op / the sweep, key (universe, n0, ops).",
     assumptions: &[
         "reference model: truth tables over a fixed universe, WMC and dWMC/dp by direct summation (harness/src/reference/boolfn.rs)",
         "WMC/gradient are compared only where the truth-table sum is unambiguous: Independent variables with pos+neg = 1 (as registered by ensure_variable), and ExclusiveGroup variables (p,1.0) only for functions of the form f AND exactly_one(S) in which every model fixes every group variable; the un-smoothed WMC of other functions under (p,1.0) weights is left open by the statement and not checked",
         "float tolerance 1e-9",
         "handles are compared only inside one manager; across managers only denoted functions are compared (node numbering depends on HashMap iteration order in compress)",
         "a budgeted operation returning Err although the deadline callback never answered false and the node budget was usize::MAX counts as a violation (nothing was exhausted)",
+        "likewise Err under a node budget strictly larger than the node count the manager holds after the same operation ran to completion on an identically prepared manager (deadline never false): under every reading of 'node budget n' (total nodes, inclusive or exclusive, or newly allocated nodes) such a budget is not exhausted; the budget equal to that count is left open",
+        "part B budgeted operations: an Ok result is checked but not pooled (the search tree must not depend on the subject's choice of where to give up); which interruptions end in Err is not prescribed, the counters b_try_err / b_try_interior_err show how many did",
         "constants TRUE/FALSE produced by an op are checked but not added to the part B handle pool; apply(h_i,h_i) is not part of the part B alphabet (covered by the part A diagonal)",
     ],
     run,
@@ -571,13 +573,32 @@ fn record(out: &mut ShardOut, case: Value, tags: Vec<String>, f: Fail, reexec: &
 const B_ORDER: [u32; 8] = [1, 0, 3, 2, 5, 4, 7, 6];
 const B_P: [f64; 8] = [0.3, 0.6, 0.9, 0.25, 0.5, 0.125, 0.7, 0.2];
 
+/// how a budgeted part B operation is interrupted; both forms are computed from the state of the
+/// manager at the moment of the call, so a sequence is replayable without a counting run
+#[derive(Clone, Copy, Debug, PartialEq, Eq, Hash)]
+enum FSel {
+    /// the deadline callback answers false from its k-th call (0-based) on
+    D(u32),
+    /// node budget = node count before the call + j (j allocations succeed, the next one fails)
+    N(u32),
+}
+
 #[derive(Clone, Debug, PartialEq, Eq, Hash)]
 enum BOp {
     Intro,
     Lit(u32, bool),
     Apply(usize, usize, bool),
     Neg(usize),
+    /// exactly_one of the first k variables in introduction order
     Eo(usize),
+    /// exactly_one of the k NEWEST variables (contains the newest variable, not the oldest when k < n)
+    EoS(usize),
+    /// budgeted twins; an Err leaves the pool as it is, an Ok result is observed like the
+    /// unbudgeted result (function, canonicity, models, wmc) but is not added to the pool, so the
+    /// shape of the search tree does not depend on where the subject decides to give up
+    TryApply(usize, usize, bool, FSel),
+    TryNeg(usize, FSel),
+    TryEo(usize, FSel),
 }
 
 impl BOp {
@@ -588,26 +609,52 @@ impl BOp {
             BOp::Apply(..) => "Apply",
             BOp::Neg(..) => "Neg",
             BOp::Eo(..) => "Eo",
+            BOp::EoS(..) => "EoS",
+            BOp::TryApply(..) => "TryApply",
+            BOp::TryNeg(..) => "TryNeg",
+            BOp::TryEo(..) => "TryEo",
         }
     }
+    fn is_try(&self) -> bool {
+        matches!(self, BOp::TryApply(..) | BOp::TryNeg(..) | BOp::TryEo(..))
+    }
     fn to_json(&self) -> Value {
+        let sel = |s: &FSel| match s {
+            FSel::D(k) => ("D", *k),
+            FSel::N(j) => ("N", *j),
+        };
         match self {
             BOp::Intro => json!(["Intro"]),
             BOp::Lit(v, p) => json!(["Lit", v, p]),
             BOp::Apply(i, j, and) => json!(["Apply", i, j, opname(*and)]),
             BOp::Neg(i) => json!(["Neg", i]),
             BOp::Eo(k) => json!(["Eo", k]),
+            BOp::EoS(k) => json!(["EoS", k]),
+            BOp::TryApply(i, j, and, s) => json!(["TryApply", i, j, opname(*and), sel(s).0, sel(s).1]),
+            BOp::TryNeg(i, s) => json!(["TryNeg", i, sel(s).0, sel(s).1]),
+            BOp::TryEo(k, s) => json!(["TryEo", k, sel(s).0, sel(s).1]),
         }
     }
     fn from_json(v: &Value) -> Option<BOp> {
         let a = v.as_array()?;
         let u = |i: usize| a.get(i).and_then(|x| x.as_u64()).map(|x| x as usize);
+        let sel = |i: usize| -> Option<FSel> {
+            match a.get(i)?.as_str()? {
+                "D" => Some(FSel::D(u(i + 1)? as u32)),
+                "N" => Some(FSel::N(u(i + 1)? as u32)),
+                _ => None,
+            }
+        };
         match a.first()?.as_str()? {
             "Intro" => Some(BOp::Intro),
             "Lit" => Some(BOp::Lit(u(1)? as u32, a.get(2)?.as_bool()?)),
             "Apply" => Some(BOp::Apply(u(1)?, u(2)?, a.get(3)?.as_str()? == "And")),
             "Neg" => Some(BOp::Neg(u(1)?)),
             "Eo" => Some(BOp::Eo(u(1)?)),
+            "EoS" => Some(BOp::EoS(u(1)?)),
+            "TryApply" => Some(BOp::TryApply(u(1)?, u(2)?, a.get(3)?.as_str()? == "And", sel(4)?)),
+            "TryNeg" => Some(BOp::TryNeg(u(1)?, sel(2)?)),
+            "TryEo" => Some(BOp::TryEo(u(1)?, sel(2)?)),
             _ => None,
         }
     }
@@ -627,8 +674,64 @@ fn alpha_name(a: u8) -> &'static str {
     match a {
         0 => "mini",
         1 => "core",
+        3 => "budget",
+        4 => "budget_sweep",
         _ => "full",
     }
+}
+
+/// interruption selectors of the budget alphabet in tree positions / in the leaf sweep
+const B_SEL_TREE: [FSel; 4] = [FSel::D(2), FSel::D(12), FSel::N(0), FSel::N(2)];
+const B_SEL_SWEEP: [FSel; 8] = [FSel::D(1), FSel::D(4), FSel::D(16), FSel::D(64), FSel::D(100_000), FSel::N(0), FSel::N(1), FSel::N(3)];
+
+/// budget alphabet (alpha 3 in the tree, 4 in the leaf sweep): introduce the next variable,
+/// literals of the newest variable, unbudgeted apply of pairs i < j, negate of the newest pool
+/// handle, exactly_one(all) and exactly_one(2 newest), and the budgeted twins try_apply(i < j),
+/// try_negate(newest handle; sweep: every handle), try_exactly_one(all) under every selector
+fn b_budget_alphabet(n: usize, s: usize, sweep: bool, nuni: usize) -> Vec<BOp> {
+    let sels: &[FSel] = if sweep { &B_SEL_SWEEP } else { &B_SEL_TREE };
+    let mut v = Vec::new();
+    if n < nuni {
+        v.push(BOp::Intro);
+    }
+    if n >= 1 {
+        v.push(BOp::Lit(B_ORDER[n - 1], true));
+        v.push(BOp::Lit(B_ORDER[n - 1], false));
+    }
+    for i in 0..s {
+        for j in (i + 1)..s {
+            for and in [true, false] {
+                v.push(BOp::Apply(i, j, and));
+                for sel in sels {
+                    v.push(BOp::TryApply(i, j, and, *sel));
+                    if sweep {
+                        v.push(BOp::TryApply(j, i, and, *sel));
+                    }
+                }
+            }
+        }
+    }
+    for i in 0..s {
+        if !sweep && i + 1 != s {
+            continue;
+        }
+        if i + 1 == s {
+            v.push(BOp::Neg(i));
+        }
+        for sel in sels {
+            v.push(BOp::TryNeg(i, *sel));
+        }
+    }
+    if n >= 2 {
+        v.push(BOp::Eo(n));
+        for sel in sels {
+            v.push(BOp::TryEo(n, *sel));
+        }
+    }
+    if n >= 3 {
+        v.push(BOp::EoS(2));
+    }
+    v
 }
 
 /// reference-level state: how many variables are introduced, the tables of the pool handles,
@@ -645,6 +748,9 @@ struct BRef<T: Table> {
 /// core: literals of the newest and the oldest variable, pairs i < j, every negate, exactly_one(first 2 | all).
 /// mini: literals of the newest variable, pairs i < j, negate of the newest pool handle, exactly_one(all).
 fn b_alphabet(n: usize, s: usize, alpha: u8, nuni: usize) -> Vec<BOp> {
+    if alpha == 3 || alpha == 4 {
+        return b_budget_alphabet(n, s, alpha == 4, nuni);
+    }
     let mut v = Vec::new();
     if n < nuni {
         v.push(BOp::Intro);
@@ -682,6 +788,10 @@ fn b_alphabet(n: usize, s: usize, alpha: u8, nuni: usize) -> Vec<BOp> {
             for k in 1..=n {
                 v.push(BOp::Eo(k));
             }
+            // lists that contain the newest variable but not the oldest
+            for k in 1..n {
+                v.push(BOp::EoS(k));
+            }
         }
         1 => {
             if n >= 2 {
@@ -689,6 +799,7 @@ fn b_alphabet(n: usize, s: usize, alpha: u8, nuni: usize) -> Vec<BOp> {
             }
             if n >= 3 {
                 v.push(BOp::Eo(n));
+                v.push(BOp::EoS(2));
             }
         }
         _ => {
@@ -718,16 +829,33 @@ fn b_ref_step<T: Table>(st: &mut BRef<T>, op: &BOp, nuni: usize) -> Option<T> {
                 st.pool[*i].or(&st.pool[*j])
             }
         }
-        BOp::Neg(i) => st.pool[*i].not(),
-        BOp::Eo(k) => {
+        BOp::Neg(i) | BOp::TryNeg(i, _) => st.pool[*i].not(),
+        BOp::TryApply(i, j, and, _) => {
+            if *and {
+                st.pool[*i].and(&st.pool[*j])
+            } else {
+                st.pool[*i].or(&st.pool[*j])
+            }
+        }
+        BOp::Eo(k) | BOp::TryEo(k, _) => {
             let pos: Vec<usize> = B_ORDER[..*k].iter().map(|v| *v as usize).collect();
             bf::exactly_one(nuni, &pos)
         }
+        BOp::EoS(k) => {
+            let pos: Vec<usize> = b_eos_list(st.n, *k).iter().map(|v| *v as usize).collect();
+            bf::exactly_one(nuni, &pos)
+        }
     };
-    if bf::is_const(&t).is_none() && !st.pool.contains(&t) {
+    if !op.is_try() && bf::is_const(&t).is_none() && !st.pool.contains(&t) {
         st.pool.push(t.clone());
     }
     Some(t)
+}
+
+/// the k newest of n introduced variables, newest first
+fn b_eos_list(n: usize, k: usize) -> Vec<u32> {
+    let k = k.min(n);
+    B_ORDER[n - k..n].iter().rev().copied().collect()
 }
 
 /// seed formulas of the start state with n0 variables, as reference tables
@@ -790,8 +918,92 @@ fn b_real_start<T: Table>(n0: usize, nuni: usize) -> R<BReal<T>> {
     Ok(BReal { s, pool })
 }
 
+/// what the budgeted operations of one executed sequence did (vacuity counters of the budget alphabet)
+#[derive(Default, Clone)]
+struct BTry {
+    tries: u64,
+    oks: u64,
+    errs: u64,
+    /// Err after at least one checkpoint passed or at least one node was allocated
+    interior_errs: u64,
+    /// an interior exhaustion happened earlier in this manager and then ...
+    err_then_intro: u64,
+    err_then_eo: u64,
+    err_then_unbudgeted_apply_or_negate: u64,
+    err_then_budgeted: u64,
+    /// budgeted operation whose formula depends on >= 4 variables
+    wide: u64,
+    wide_interior_errs: u64,
+    /// (state of the current manager) an interior exhaustion has happened
+    dirty: bool,
+}
+
+/// run one budgeted operation of part B under `sel` and classify the result
+fn b_try<T: Table>(r: &mut BReal<T>, sel: FSel, t: &T, what: &dyn Fn() -> String, ts: &mut BTry, f: &mut dyn FnMut(&mut SddManager, &mut SddOperationBudget<'_>) -> Result<SddId, SddBudgetError>) -> R<Option<SddId>> {
+    let nodes_before = r.s.m.node_count();
+    let mut calls: u64 = 0;
+    let mut fired = false;
+    let max_nodes = match sel {
+        FSel::N(j) => nodes_before + j as usize,
+        FSel::D(_) => usize::MAX,
+    };
+    let res = {
+        let mut cb = || {
+            let ok = match sel {
+                FSel::D(k) => calls < k as u64,
+                FSel::N(_) => true,
+            };
+            calls += 1;
+            if !ok {
+                fired = true;
+            }
+            ok
+        };
+        let mut budget = SddOperationBudget::new(max_nodes, &mut cb);
+        f(&mut r.s.m, &mut budget)
+    };
+    let nodes_after = r.s.m.node_count();
+    let nvars_dep = (0..r.s.n).filter(|i| bf::depends_on(t, *i)).count();
+    ts.tries += 1;
+    if ts.dirty {
+        ts.err_then_budgeted += 1;
+    }
+    if nvars_dep >= 4 {
+        ts.wide += 1;
+    }
+    match res {
+        Ok(h) => {
+            ts.oks += 1;
+            ctxf(r.s.observe(h, t, "budgeted result"), || format!("{} under {:?} returned Ok({})", what(), sel, hs(h)))?;
+            Ok(Some(h))
+        }
+        Err(e) => {
+            ts.errs += 1;
+            if !fired && matches!(sel, FSel::D(_)) {
+                return fail("spurious_exhaustion", format!("{} under {:?} returned Err({:?}) although the deadline callback answered true {} times and never false, and the node budget was usize::MAX", what(), sel, e, calls));
+            }
+            if calls >= 2 || nodes_after > nodes_before {
+                ts.interior_errs += 1;
+                ts.dirty = true;
+                if nvars_dep >= 4 {
+                    ts.wide_interior_errs += 1;
+                }
+            }
+            Ok(None)
+        }
+    }
+}
+
 /// one op on the real manager, compared with the reference step; afterwards every pool handle is re-checked
-fn b_real_step<T: Table>(r: &mut BReal<T>, st: &mut BRef<T>, op: &BOp, nuni: usize, recheck_pool: bool) -> R<Option<(SddId, T)>> {
+fn b_real_step<T: Table>(r: &mut BReal<T>, st: &mut BRef<T>, op: &BOp, nuni: usize, recheck_pool: bool, ts: &mut BTry) -> R<Option<(SddId, T)>> {
+    if ts.dirty {
+        match op {
+            BOp::Intro => ts.err_then_intro += 1,
+            BOp::Eo(_) | BOp::EoS(_) => ts.err_then_eo += 1,
+            BOp::Apply(..) | BOp::Neg(_) => ts.err_then_unbudgeted_apply_or_negate += 1,
+            _ => {}
+        }
+    }
     let h = match op {
         BOp::Intro => {
             let v = B_ORDER[st.n];
@@ -802,6 +1014,24 @@ fn b_real_step<T: Table>(r: &mut BReal<T>, st: &mut BRef<T>, op: &BOp, nuni: usi
         BOp::Apply(i, j, and) => Some(r.s.apply(r.pool[*i], r.pool[*j], *and)?),
         BOp::Neg(i) => Some(r.s.negate(r.pool[*i])?),
         BOp::Eo(k) => Some(r.s.exactly_one(&B_ORDER[..*k])?),
+        BOp::EoS(k) => Some(r.s.exactly_one(&b_eos_list(st.n, *k))?),
+        BOp::TryApply(i, j, and, sel) => {
+            let (a, b) = (r.pool[*i], r.pool[*j]);
+            let t = if *and { st.pool[*i].and(&st.pool[*j]) } else { st.pool[*i].or(&st.pool[*j]) };
+            let o = bop(*and);
+            b_try(r, *sel, &t, &|| format!("try_apply(pool {} [{}], pool {} [{}], {})", i, st.pool[*i].hex(), j, st.pool[*j].hex(), opname(*and)), ts, &mut |m, bud| m.try_apply(a, b, o, bud))?
+        }
+        BOp::TryNeg(i, sel) => {
+            let a = r.pool[*i];
+            let t = st.pool[*i].not();
+            b_try(r, *sel, &t, &|| format!("try_negate(pool {} [{}])", i, st.pool[*i].hex()), ts, &mut |m, bud| m.try_negate(a, bud))?
+        }
+        BOp::TryEo(k, sel) => {
+            let list: Vec<u32> = B_ORDER[..*k].to_vec();
+            let pos: Vec<usize> = list.iter().map(|v| *v as usize).collect();
+            let t: T = bf::exactly_one(nuni, &pos);
+            b_try(r, *sel, &t, &|| format!("try_exactly_one({:?})", list), ts, &mut |m, bud| m.try_exactly_one(&list, bud))?
+        }
     };
     let before = st.pool.len();
     let t = b_ref_step(st, op, nuni);
@@ -835,6 +1065,27 @@ struct BNodeStats {
     sweep_ops: u64,
     tracked: usize,
     nodes: usize,
+    /// budgeted operations of the prefix (all ops but the last) / of the whole execution including the leaf sweep
+    tree_try: BTry,
+    all_try: BTry,
+}
+
+impl BTry {
+    /// counters of `self` minus those of `prefix`, as (name, value)
+    fn delta(&self, prefix: &BTry) -> Vec<(&'static str, u64)> {
+        vec![
+            ("b_try_ops", self.tries - prefix.tries),
+            ("b_try_ok", self.oks - prefix.oks),
+            ("b_try_err", self.errs - prefix.errs),
+            ("b_try_interior_err", self.interior_errs - prefix.interior_errs),
+            ("b_try_interior_err_then_intro", self.err_then_intro - prefix.err_then_intro),
+            ("b_try_interior_err_then_exactly_one", self.err_then_eo - prefix.err_then_eo),
+            ("b_try_interior_err_then_unbudgeted_apply_or_negate", self.err_then_unbudgeted_apply_or_negate - prefix.err_then_unbudgeted_apply_or_negate),
+            ("b_try_interior_err_then_budgeted_op", self.err_then_budgeted - prefix.err_then_budgeted),
+            ("b_try_ops_on_4plus_variables", self.wide - prefix.wide),
+            ("b_try_interior_err_on_4plus_variables", self.wide_interior_errs - prefix.wide_interior_errs),
+        ]
+    }
 }
 
 #[derive(Clone, Copy, Debug)]
@@ -851,8 +1102,13 @@ fn b_exec<T: Table>(cfg: &BCfg, n0: usize, ops: &[BOp], sweep: Option<usize>) ->
     let mut st: BRef<T> = b_ref_start(n0, cfg.nuni);
     let mut r: BReal<T> = guard(|| b_real_start(n0, cfg.nuni)).map_err(|f| (BPos::Start, f))?;
     let mut last: Option<(SddId, T)> = None;
+    let mut ts = BTry::default();
+    let mut tree_try = BTry::default();
     for (i, op) in ops.iter().enumerate() {
-        last = guard(|| b_real_step(&mut r, &mut st, op, cfg.nuni, true)).map_err(|f| (BPos::Op(i), f))?;
+        if i + 1 == ops.len() {
+            tree_try = ts.clone(); // what the prefix did (already counted by the ancestors of this node)
+        }
+        last = guard(|| b_real_step(&mut r, &mut st, op, cfg.nuni, true, &mut ts)).map_err(|f| (BPos::Op(i), f))?;
     }
     let lastpos = if ops.is_empty() { BPos::Start } else { BPos::Op(ops.len() - 1) };
     if let Some((h, t)) = &last {
@@ -863,7 +1119,7 @@ fn b_exec<T: Table>(cfg: &BCfg, n0: usize, ops: &[BOp], sweep: Option<usize>) ->
     }
     let mut sweep_ops = 0;
     if let Some(limit) = sweep {
-        let alpha = b_alphabet(st.n, st.pool.len(), cfg.alpha.max(1), cfg.nuni);
+        let alpha = b_alphabet(st.n, st.pool.len(), if cfg.alpha == 3 { 4 } else { cfg.alpha.max(1) }, cfg.nuni);
         let plen = r.pool.len();
         let mut lastj = 0;
         for (j, op) in alpha.iter().enumerate() {
@@ -874,7 +1130,7 @@ fn b_exec<T: Table>(cfg: &BCfg, n0: usize, ops: &[BOp], sweep: Option<usize>) ->
                 continue; // the sweep keeps the variable set of the leaf
             }
             let mut st2 = st.clone();
-            let res = guard(|| b_real_step(&mut r, &mut st2, op, cfg.nuni, false));
+            let res = guard(|| b_real_step(&mut r, &mut st2, op, cfg.nuni, false, &mut ts));
             r.pool.truncate(plen);
             res.map_err(|f| (BPos::Sweep(j), f))?;
             sweep_ops += 1;
@@ -882,7 +1138,7 @@ fn b_exec<T: Table>(cfg: &BCfg, n0: usize, ops: &[BOp], sweep: Option<usize>) ->
         }
         guard(|| r.s.check_all("every tracked handle after the sweep").map(|_| ())).map_err(|f| (BPos::Sweep(lastj), f))?;
     }
-    Ok(BNodeStats { sweep_ops, tracked: r.s.tracked.len(), nodes: r.s.m.node_count() })
+    Ok(BNodeStats { sweep_ops, tracked: r.s.tracked.len(), nodes: r.s.m.node_count(), tree_try, all_try: ts })
 }
 
 fn b_case(cfg: &BCfg, n0: usize, ops: &[BOp], pos: BPos) -> (Value, Vec<String>) {
@@ -900,6 +1156,10 @@ fn b_case(cfg: &BCfg, n0: usize, ops: &[BOp], pos: BPos) -> (Value, Vec<String>)
     if ops[..upto].iter().any(|o| matches!(o, BOp::Intro)) {
         tags.push("late_intro".into());
     }
+    let before_last = if matches!(pos, BPos::Sweep(_)) { upto } else { upto.saturating_sub(1) };
+    if ops[..before_last].iter().any(|o| o.is_try()) {
+        tags.push("after_budgeted_op".into());
+    }
     let case = json!({"part": "B", "nuni": cfg.nuni, "alphabet": alpha_name(cfg.alpha), "n0": n0,
         "ops": ops[..upto].iter().map(|o| o.to_json()).collect::<Vec<_>>(),
         "sweep": sweep});
@@ -915,7 +1175,7 @@ fn b_exec_dyn(cfg: &BCfg, n0: usize, ops: &[BOp], sweep: Option<usize>) -> Resul
 }
 
 fn b_reexec(case: &Value) -> Option<(Vec<String>, Fail)> {
-    let cfg = BCfg { nuni: case["nuni"].as_u64().unwrap_or(6) as usize, depth: 0, alpha: match case["alphabet"].as_str() { Some("mini") => 0, Some("core") => 1, _ => 2 }, starts: &[] };
+    let cfg = BCfg { nuni: case["nuni"].as_u64().unwrap_or(6) as usize, depth: 0, alpha: match case["alphabet"].as_str() { Some("mini") => 0, Some("core") => 1, Some("budget") => 3, _ => 2 }, starts: &[] };
     let n0 = case["n0"].as_u64().unwrap_or(0) as usize;
     let ops: Vec<BOp> = case["ops"].as_array().map(|a| a.iter().filter_map(BOp::from_json).collect()).unwrap_or_default();
     let sweep = case["sweep"].as_u64().map(|j| j as usize);
@@ -964,6 +1224,17 @@ fn b_visit<T: Table>(w: &mut BWalk, st: &BRef<T>, ops: &mut Vec<BOp>, last_t: Op
                 out.evaluations += 1 + stats.sweep_ops;
                 out.transitions += (d > 0) as u64 + stats.sweep_ops;
                 out.count("b_sweep_ops", stats.sweep_ops);
+                if w.cfg.alpha == 3 {
+                    for (name, v) in stats.all_try.delta(&stats.tree_try) {
+                        out.count(name, v);
+                    }
+                    // non-trivial (budget alphabet): an interior exhaustion earlier in the sequence and
+                    // the manager was used again by this node's last op or its sweep
+                    if stats.tree_try.dirty && d <= 3 {
+                        out.nontrivial(&("B-budget", w.cfg.nuni, w.n0, &*ops));
+                        out.count("b_budget_nontrivial_nodes", 1);
+                    }
+                }
                 out.max_depth = out.max_depth.max((d + (stats.sweep_ops > 0) as usize) as u64);
                 out.max("max_b_tracked_handles", stats.tracked as u64);
                 out.max("max_b_manager_nodes", stats.nodes as u64);
@@ -1032,12 +1303,17 @@ fn run_b(ctx: &Ctx, out: &mut ShardOut) {
             BCfg { nuni: 8, depth: 3, alpha: 1, starts: &[0, 1, 2, 3, 4, 5, 6, 7] },
             BCfg { nuni: 8, depth: 4, alpha: 0, starts: &[1, 3, 5, 7] },
             BCfg { nuni: 6, depth: 5, alpha: 0, starts: &[1, 3, 5] },
+            BCfg { nuni: 6, depth: 2, alpha: 3, starts: &[1, 2, 3, 4, 5] },
+            BCfg { nuni: 8, depth: 2, alpha: 3, starts: &[3, 4, 5, 6, 7] },
+            BCfg { nuni: 6, depth: 3, alpha: 3, starts: &[2, 4] },
+            BCfg { nuni: 8, depth: 3, alpha: 3, starts: &[6] },
         ]
     } else {
         vec![
             BCfg { nuni: 6, depth: 2, alpha: 2, starts: &[0, 1, 2, 3, 4, 5] },
             BCfg { nuni: 6, depth: 3, alpha: 1, starts: &[0, 1, 2, 3, 4, 5] },
             BCfg { nuni: 6, depth: 4, alpha: 0, starts: &[1, 3, 5] },
+            BCfg { nuni: 6, depth: 2, alpha: 3, starts: &[1, 2, 3, 4, 5] },
         ]
     };
     for cfg in cfgs {
@@ -1066,26 +1342,48 @@ enum COp {
     Negate(u8),
     /// try_literal(var, pol); present: 0 = no literal node yet, 1 = this literal exists, 2 = only the opposite one exists
     Literal(u32, bool, u8),
-    /// try_exactly_one(list); pre = 1: all literals already exist
-    Eo(Vec<u32>, u8),
+    /// try_exactly_one(list); pre = 1: all literals already exist; pre = 2: the diagram of the
+    /// list's tail (and everything below it) already exists, so the recursion only meets caches;
+    /// excl: the listed variables are declared ExclusiveGroup with (p,1.0) weights while the
+    /// budgeted call runs and its result is checked (wmc, gradient), and re-declared Independent afterwards
+    Eo(Vec<u32>, u8, bool),
+    /// try_apply(a, b, op) over 4 or 5 variables; a, b = tables over the 6-position universe
+    /// (functions of the introduced variables only)
+    ApplyW(u64, u64, bool),
+    /// try_negate(a) over 4 or 5 variables
+    NegateW(u64),
 }
 
 #[derive(Clone, Debug, PartialEq, Eq, Hash)]
 struct CCase {
-    /// variables 0..nvars are introduced in this order
+    /// variables 0..nvars are introduced ...
     nvars: usize,
+    /// ... in this order (empty = 0,1,2,..)
+    order: Vec<u32>,
     op: COp,
 }
 
 impl CCase {
+    fn new(nvars: usize, op: COp) -> CCase {
+        CCase { nvars, order: Vec::new(), op }
+    }
+    fn intro_order(&self) -> Vec<u32> {
+        if self.order.is_empty() {
+            (0..self.nvars as u32).collect()
+        } else {
+            self.order.clone()
+        }
+    }
     fn to_json(&self) -> Value {
         let op = match &self.op {
             COp::Apply(a, b, and) => json!(["try_apply", a, b, opname(*and)]),
             COp::Negate(a) => json!(["try_negate", a]),
             COp::Literal(v, p, pr) => json!(["try_literal", v, p, pr]),
-            COp::Eo(l, pre) => json!(["try_exactly_one", l, pre]),
+            COp::Eo(l, pre, excl) => json!(["try_exactly_one", l, pre, excl]),
+            COp::ApplyW(a, b, and) => json!(["try_apply_w", a, b, opname(*and)]),
+            COp::NegateW(a) => json!(["try_negate_w", a]),
         };
-        json!({"part": "C", "nvars": self.nvars, "op": op})
+        json!({"part": "C", "nvars": self.nvars, "order": self.intro_order(), "op": op})
     }
     fn from_json(v: &Value) -> Option<CCase> {
         let a = v["op"].as_array()?;
@@ -1094,18 +1392,46 @@ impl CCase {
             "try_apply" => COp::Apply(u(1)? as u8, u(2)? as u8, a.get(3)?.as_str()? == "And"),
             "try_negate" => COp::Negate(u(1)? as u8),
             "try_literal" => COp::Literal(u(1)? as u32, a.get(2)?.as_bool()?, u(3)? as u8),
-            "try_exactly_one" => COp::Eo(a.get(1)?.as_array()?.iter().filter_map(|x| x.as_u64()).map(|x| x as u32).collect(), u(2)? as u8),
+            "try_exactly_one" => COp::Eo(a.get(1)?.as_array()?.iter().filter_map(|x| x.as_u64()).map(|x| x as u32).collect(), u(2)? as u8, a.get(3).and_then(|x| x.as_bool()).unwrap_or(false)),
+            "try_apply_w" => COp::ApplyW(u(1)?, u(2)?, a.get(3)?.as_str()? == "And"),
+            "try_negate_w" => COp::NegateW(u(1)?),
             _ => return None,
         };
-        Some(CCase { nvars: v["nvars"].as_u64()? as usize, op })
+        let nvars = v["nvars"].as_u64()? as usize;
+        let mut order: Vec<u32> = v["order"].as_array().map(|o| o.iter().filter_map(|x| x.as_u64()).map(|x| x as u32).collect()).unwrap_or_default();
+        // only a permutation of 0..nvars is a valid introduction order
+        let mut sorted = order.clone();
+        sorted.sort();
+        if sorted != (0..nvars as u32).collect::<Vec<_>>() || order.iter().enumerate().all(|(i, v)| i as u32 == *v) {
+            order = Vec::new();
+        }
+        // operands must be functions of the introduced variables only (the generators guarantee it;
+        // a hand-written replay file might not)
+        let narrow_ok = |f: u8| nvars >= 3 || (0..8usize).all(|m| (f >> m) & 1 == (f >> (m & ((1 << nvars) - 1))) & 1);
+        let wide_ok = |f: u64| nvars >= 6 || (0..64usize).all(|m| (f >> m) & 1 == (f >> (m & ((1 << nvars) - 1))) & 1);
+        let ok = match &op {
+            COp::Apply(a, b, _) => nvars >= 1 && nvars <= 3 && narrow_ok(*a) && narrow_ok(*b),
+            COp::Negate(a) => nvars >= 1 && nvars <= 3 && narrow_ok(*a),
+            COp::ApplyW(a, b, _) => nvars >= 1 && nvars <= 6 && wide_ok(*a) && wide_ok(*b),
+            COp::NegateW(a) => nvars >= 1 && nvars <= 6 && wide_ok(*a),
+            COp::Literal(v, _, _) => (*v as usize) < nvars && nvars <= 3,
+            COp::Eo(l, _, _) => nvars <= 6 && l.iter().all(|v| (*v as usize) < nvars),
+        };
+        if !ok {
+            return None;
+        }
+        Some(CCase { nvars, order, op })
     }
     fn opkind(&self) -> &'static str {
         match self.op {
-            COp::Apply(..) => "try_apply",
-            COp::Negate(..) => "try_negate",
+            COp::Apply(..) | COp::ApplyW(..) => "try_apply",
+            COp::Negate(..) | COp::NegateW(..) => "try_negate",
             COp::Literal(..) => "try_literal",
             COp::Eo(..) => "try_exactly_one",
         }
+    }
+    fn wide(&self) -> bool {
+        matches!(self.op, COp::ApplyW(..) | COp::NegateW(..))
     }
 }
 
@@ -1117,6 +1443,12 @@ enum Fault {
     Deadline(u64),
     /// node budget n, deadline never expires
     Nodes(usize),
+    /// node budget n that is known to exceed the node count the manager reaches when the same
+    /// operation runs uninterrupted on an identically prepared manager (n >= that count + 1), deadline
+    /// never expires: nothing can be exhausted, so Err is a violation (sufficiency clause)
+    NodesEnough(usize),
+    /// deadline expires at the k-th checkpoint AND node budget n in the same budget
+    Both(u64, usize),
 }
 
 /// which operation a step of a run executes: the case's operation or its dual
@@ -1146,9 +1478,17 @@ struct CPrep<T: Table> {
     operands: Vec<SddId>,
 }
 
+/// table over the 6-position universe given as a u64 bitmask
+fn embed6<T: Table>(n: usize, f: u64) -> T {
+    T::from_fn(n, &|m| (f >> (m & 63)) & 1 == 1)
+}
+
+/// exclusive-group weights used by the `excl` variant of the exactly-one cases
+const C_AD: [f64; 6] = [0.2, 0.3, 0.45, 0.05, 0.6, 0.15];
+
 fn c_prepare<T: Table>(nuni: usize, case: &CCase) -> R<CPrep<T>> {
     let mut s: Sess<T> = Sess::new(nuni);
-    for v in 0..case.nvars as u32 {
+    for v in case.intro_order() {
         s.intro(v, C_P[v as usize]);
     }
     let mut operands = Vec::new();
@@ -1158,6 +1498,11 @@ fn c_prepare<T: Table>(nuni: usize, case: &CCase) -> R<CPrep<T>> {
             operands.push(s.build(&embed::<T>(nuni, *b), false)?);
         }
         COp::Negate(a) => operands.push(s.build(&embed::<T>(nuni, *a), false)?),
+        COp::ApplyW(a, b, _) => {
+            operands.push(s.build(&embed6::<T>(nuni, *a), false)?);
+            operands.push(s.build(&embed6::<T>(nuni, *b), false)?);
+        }
+        COp::NegateW(a) => operands.push(s.build(&embed6::<T>(nuni, *a), false)?),
         COp::Literal(v, p, present) => match present {
             1 => {
                 s.literal(*v, *p)?;
@@ -1167,12 +1512,15 @@ fn c_prepare<T: Table>(nuni: usize, case: &CCase) -> R<CPrep<T>> {
             }
             _ => {}
         },
-        COp::Eo(_, pre) => {
+        COp::Eo(l, pre, _) => {
             if *pre == 1 {
                 for v in 0..case.nvars as u32 {
                     s.literal(v, true)?;
                     s.literal(v, false)?;
                 }
+            }
+            if *pre == 2 && l.len() >= 2 {
+                s.exactly_one(&l[1..])?;
             }
         }
     }
@@ -1192,7 +1540,16 @@ fn c_expected<T: Table>(nuni: usize, case: &CCase) -> T {
         }
         COp::Negate(a) => embed::<T>(nuni, *a).not(),
         COp::Literal(v, p, _) => bf::literal(nuni, *v as usize, *p),
-        COp::Eo(l, _) => bf::exactly_one(nuni, &l.iter().map(|v| *v as usize).collect::<Vec<_>>()),
+        COp::Eo(l, _, _) => bf::exactly_one(nuni, &l.iter().map(|v| *v as usize).collect::<Vec<_>>()),
+        COp::ApplyW(a, b, and) => {
+            let (ta, tb) = (embed6::<T>(nuni, *a), embed6::<T>(nuni, *b));
+            if *and {
+                ta.and(&tb)
+            } else {
+                ta.or(&tb)
+            }
+        }
+        COp::NegateW(a) => embed6::<T>(nuni, *a).not(),
     }
 }
 
@@ -1202,13 +1559,13 @@ fn c_budgeted<T: Table>(p: &mut CPrep<T>, case: &CCase, step: Step) -> (Result<S
     let mut fired = false;
     let nodes_before = p.s.m.node_count();
     let max_nodes = match step.fault {
-        Fault::Nodes(n) => n,
+        Fault::Nodes(n) | Fault::NodesEnough(n) | Fault::Both(_, n) => n,
         _ => usize::MAX,
     };
     let res = {
         let mut cb = || {
             let ok = match step.fault {
-                Fault::Deadline(k) => calls < k,
+                Fault::Deadline(k) | Fault::Both(k, _) => calls < k,
                 _ => true,
             };
             calls += 1;
@@ -1227,9 +1584,16 @@ fn c_budgeted<T: Table>(p: &mut CPrep<T>, case: &CCase, step: Step) -> (Result<S
                     m.try_apply(p.operands[0], p.operands[1], bop(*and), &mut budget)
                 }
             }
-            COp::Negate(_) => m.try_negate(p.operands[0], &mut budget),
+            COp::ApplyW(_, _, and) => {
+                if step.dual {
+                    m.try_apply(p.operands[1], p.operands[0], bop(!*and), &mut budget)
+                } else {
+                    m.try_apply(p.operands[0], p.operands[1], bop(*and), &mut budget)
+                }
+            }
+            COp::Negate(_) | COp::NegateW(_) => m.try_negate(p.operands[0], &mut budget),
             COp::Literal(v, pol, _) => m.try_literal(*v, *pol, &mut budget),
-            COp::Eo(l, _) => m.try_exactly_one(l, &mut budget),
+            COp::Eo(l, _, _) => m.try_exactly_one(l, &mut budget),
         }
     };
     let obs = StepObs {
@@ -1245,7 +1609,8 @@ fn c_budgeted<T: Table>(p: &mut CPrep<T>, case: &CCase, step: Step) -> (Result<S
 
 fn c_step_expected<T: Table>(nuni: usize, case: &CCase, dual: bool) -> T {
     match (&case.op, dual) {
-        (COp::Apply(a, b, and), true) => c_expected(nuni, &CCase { nvars: case.nvars, op: COp::Apply(*b, *a, !*and) }),
+        (COp::Apply(a, b, and), true) => c_expected(nuni, &CCase::new(case.nvars, COp::Apply(*b, *a, !*and))),
+        (COp::ApplyW(a, b, and), true) => c_expected(nuni, &CCase::new(case.nvars, COp::ApplyW(*b, *a, !*and))),
         _ => c_expected(nuni, case),
     }
 }
@@ -1257,17 +1622,17 @@ fn c_post<T: Table>(p: &mut CPrep<T>, case: &CCase, heavy: bool) -> R<()> {
     let t = c_expected::<T>(nuni, case);
     // the same operation, unbudgeted
     let h2 = match &case.op {
-        COp::Apply(_, _, and) => p.s.apply(p.operands[0], p.operands[1], *and)?,
-        COp::Negate(_) => p.s.negate(p.operands[0])?,
+        COp::Apply(_, _, and) | COp::ApplyW(_, _, and) => p.s.apply(p.operands[0], p.operands[1], *and)?,
+        COp::Negate(_) | COp::NegateW(_) => p.s.negate(p.operands[0])?,
         COp::Literal(v, pol, _) => p.s.literal(*v, *pol)?,
-        COp::Eo(l, _) => p.s.exactly_one(l)?,
+        COp::Eo(l, _, _) => p.s.exactly_one(l)?,
     };
     p.s.denotes(h2, &t, "unbudgeted repetition of the operation")?;
     let mut keys: Vec<SddId> = p.operands.clone();
     keys.push(h2);
     // another route to the same function
     match &case.op {
-        COp::Apply(_, _, and) => {
+        COp::Apply(_, _, and) | COp::ApplyW(_, _, and) => {
             let na = p.s.negate(p.operands[0])?;
             let nb = p.s.negate(p.operands[1])?;
             let d = p.s.apply(na, nb, !*and)?;
@@ -1282,7 +1647,7 @@ fn c_post<T: Table>(p: &mut CPrep<T>, case: &CCase, heavy: bool) -> R<()> {
             let dual = p.s.apply(p.operands[1], p.operands[0], !*and)?;
             keys.push(dual);
         }
-        COp::Negate(_) => {
+        COp::Negate(_) | COp::NegateW(_) => {
             let back = p.s.negate(h2)?;
             if back != p.operands[0] {
                 return fail("not_canonical", format!("negate(negate(a)) = {:?}, a = {:?}", back, p.operands[0]));
@@ -1301,7 +1666,7 @@ fn c_post<T: Table>(p: &mut CPrep<T>, case: &CCase, heavy: bool) -> R<()> {
             }
             keys.push(o);
         }
-        COp::Eo(l, _) => {
+        COp::Eo(l, _, _) => {
             let mut rev = l.clone();
             rev.reverse();
             let alt = p.s.exactly_one(&rev)?;
@@ -1349,8 +1714,16 @@ fn c_run<T: Table>(nuni: usize, case: &CCase, steps: &[Step], heavy: bool) -> Re
     let mut p: CPrep<T> = guard(|| c_prepare(nuni, case)).map_err(|f| ("prepare", f))?;
     let mut obs = Vec::new();
     let mut any_err = false;
+    let excl_vars: Vec<u32> = match &case.op {
+        COp::Eo(l, _, true) => l.clone(),
+        _ => Vec::new(),
+    };
     for st in steps {
         let texp: T = c_step_expected(nuni, case, st.dual);
+        // (kind switch Independent -> ExclusiveGroup of already registered variables)
+        for &v in &excl_vars {
+            p.s.set_exclusive(v, C_AD[v as usize], 7);
+        }
         let r = guarded(|| c_budgeted(&mut p, case, *st));
         let (res, o) = match r {
             Ok(x) => x,
@@ -1362,7 +1735,12 @@ fn c_run<T: Table>(nuni: usize, case: &CCase, steps: &[Step], heavy: bool) -> Re
                 let chk = guard(|| {
                     p.s.observe(h, &texp, what)?;
                     p.s.denotes(h, &texp, what)?;
-                    p.s.wmc_ok(h, &texp, what)
+                    p.s.wmc_ok(h, &texp, what)?;
+                    if !excl_vars.is_empty() {
+                        // exactly_one(S) with exactly S declared exclusive: every model fixes every group variable
+                        p.s.grad_ok(h, &texp, "budgeted exactly_one under exclusive-group weights")?;
+                    }
+                    Ok(())
                 });
                 if let Err(f) = chk {
                     return Err(("result", Fail { symptom: f.symptom, detail: format!("{:?} returned Ok({}): {}", st, hs(h), f.detail) }));
@@ -1376,7 +1754,18 @@ fn c_run<T: Table>(nuni: usize, case: &CCase, steps: &[Step], heavy: bool) -> Re
                         Fail { symptom: "spurious_exhaustion", detail: format!("{:?} returned Err({:?}) although the deadline callback answered true {} times and never false, and the node budget was usize::MAX", st, e, o.calls) },
                     ));
                 }
+                if !o.fired {
+                    if let Fault::NodesEnough(n) = st.fault {
+                        return Err((
+                            "result",
+                            Fail { symptom: "spurious_exhaustion", detail: format!("{:?} returned Err({:?}) although the deadline callback never answered false and the node budget {} exceeds the node count the manager holds after the same operation ran uninterrupted on an identically prepared manager (manager had {} nodes before, {} after this call)", st, e, n, o.nodes_before, o.nodes_after) },
+                        ));
+                    }
+                }
             }
+        }
+        for &v in &excl_vars {
+            p.s.intro(v, C_P[v as usize]);
         }
         obs.push(o);
     }
@@ -1395,6 +1784,8 @@ struct CStats {
     bound2_second_errs: u64,
     max_checkpoints: u64,
     max_new_nodes: u64,
+    sufficient_budget_runs: u64,
+    both_budget_runs: u64,
 }
 
 struct CFailure {
@@ -1410,20 +1801,32 @@ fn fault_name(f: Fault) -> &'static str {
         Fault::None => "none",
         Fault::Deadline(_) => "deadline",
         Fault::Nodes(_) => "node_budget",
+        Fault::NodesEnough(_) => "node_budget_sufficient",
+        Fault::Both(..) => "deadline_and_node_budget",
     }
 }
 
 /// map a transported string back to one of the fixed symptom / phase / fault names
 fn intern(s: &str) -> &'static str {
-    const KNOWN: [&str; 18] = [
+    const KNOWN: [&str; 20] = [
         "wrong_function", "not_canonical", "models_mismatch", "wmc_mismatch", "gradient_mismatch", "spurious_exhaustion", "panic", "process_crash",
         "prepare", "result", "after_exhaustion", "after_success", "crash", "none", "deadline", "node_budget", "unknown", "other",
+        "node_budget_sufficient", "deadline_and_node_budget",
     ];
     KNOWN.iter().find(|k| **k == s).copied().unwrap_or("other")
 }
 
 fn c_tags(case: &CCase, f: &CFailure) -> Vec<String> {
-    vec!["part=C".to_string(), format!("budgeted_op={}", case.opkind()), format!("phase={}", f.phase), format!("bound={}", f.nsteps), format!("fault={}", f.last_fault)]
+    let mut t = vec!["part=C".to_string(), format!("budgeted_op={}", case.opkind()), format!("phase={}", f.phase), format!("bound={}", f.nsteps), format!("fault={}", f.last_fault), format!("nvars={}", case.nvars)];
+    t.push(if case.order.is_empty() { "intro_order=ascending".to_string() } else { "intro_order=permuted".to_string() });
+    if let COp::Eo(l, pre, excl) = &case.op {
+        t.push(format!("eo_list_len={}", l.len()));
+        t.push(format!("eo_pre={}", pre));
+        if *excl {
+            t.push("eo_exclusive_kind".into());
+        }
+    }
+    t
 }
 
 /// The complete procedure for one operation: count, every k, every n, optionally bound 2.
@@ -1451,7 +1854,8 @@ fn c_pair<T: Table>(nuni: usize, case: &CCase, bound2: u8, heavy: bool, stats: &
         let interior = match f {
             Fault::Deadline(k) => k >= 1,
             Fault::Nodes(n) => n > o.nodes_before || o.nodes_after > o.nodes_before,
-            Fault::None => false,
+            Fault::Both(k, n) => k >= 1 && (n > o.nodes_before || o.nodes_after > o.nodes_before),
+            Fault::None | Fault::NodesEnough(_) => false,
         };
         if !o.ok && interior {
             stats.interior_errs += 1;
@@ -1485,13 +1889,31 @@ fn c_pair<T: Table>(nuni: usize, case: &CCase, bound2: u8, heavy: bool, stats: &
     }
     // 3. every node budget from the count before to the count after (+1), and 0
     let mut budgets: Vec<usize> = vec![0];
-    budgets.extend(n0..=n1 + 1);
+    budgets.extend(n0..=n1);
     for n in budgets {
         let f = Fault::Nodes(n);
         let r = run(&[Step { dual: false, fault: f }], heavy, stats)?;
         tally(&r.obs[0], f, stats);
         if !r.obs[0].ok && n >= n0 {
             first_errs.push(f);
+        }
+    }
+    // 3b. sufficiency: a node budget above the count the manager holds after the uninterrupted
+    //     operation (largest count seen in any run so far, +1) cannot be exhausted: Err is a violation
+    for n in [n1 + 1, 2 * n1 + 64] {
+        let f = Fault::NodesEnough(n);
+        let r = run(&[Step { dual: false, fault: f }], heavy, stats)?;
+        tally(&r.obs[0], f, stats);
+        stats.sufficient_budget_runs += 1;
+    }
+    // 3c. deadline and node budget in the same budget: deadline at the middle checkpoint with the
+    //     node budget in the middle of the range, and the last checkpoint with the last failing budget
+    if cmax >= 2 && n1 > n0 {
+        for (k, n) in [(cmax / 2, (n0 + n1) / 2), (cmax - 1, n1 - 1), (1, n1 - 1), (cmax - 1, n0)] {
+            let f = Fault::Both(k, n);
+            let r = run(&[Step { dual: false, fault: f }], heavy, stats)?;
+            tally(&r.obs[0], f, stats);
+            stats.both_budget_runs += 1;
         }
     }
     // 4. bound 2: after every first exhaustion a second interrupted operation on the same manager
@@ -1529,6 +1951,10 @@ fn c_pair<T: Table>(nuni: usize, case: &CCase, bound2: u8, heavy: bool, stats: &
                         stats.bound2_second_errs += 1;
                     }
                 }
+                // sufficiency also for the second operation after an exhaustion
+                run(&[s1, Step { dual, fault: Fault::NodesEnough(m1 + 1) }], false, stats)?;
+                stats.bound2_runs += 1;
+                stats.sufficient_budget_runs += 1;
             }
         }
     }
@@ -1537,7 +1963,7 @@ fn c_pair<T: Table>(nuni: usize, case: &CCase, bound2: u8, heavy: bool, stats: &
 
 fn c_pair_inproc(case: &CCase, bound2: u8, heavy: bool, stats: &mut CStats) -> Result<(), CFailure> {
     match case.op {
-        COp::Eo(..) => c_pair::<B6>(6, case, bound2, heavy, stats),
+        COp::Eo(..) | COp::ApplyW(..) | COp::NegateW(..) => c_pair::<B6>(6, case, bound2, heavy, stats),
         _ => c_pair::<B3>(3, case, bound2, heavy, stats),
     }
 }
@@ -1577,6 +2003,8 @@ fn iso_note(steps: &[Step]) {
                 Fault::None => (0, 0),
                 Fault::Deadline(k) => (1, k),
                 Fault::Nodes(n) => (2, n as u64),
+                Fault::NodesEnough(n) => (3, n as u64),
+                Fault::Both(k, n) => (4, (k & 0xffff_ffff) | ((n as u64) << 32)),
             };
             *p.add(off) = s.dual as u8;
             *p.add(off + 1) = kind;
@@ -1601,7 +2029,7 @@ fn iso_read_note() -> Vec<Step> {
             let mut b = [0u8; 8];
             std::ptr::copy_nonoverlapping(p.add(off + 2), b.as_mut_ptr(), 8);
             let val = u64::from_le_bytes(b);
-            v.push(Step { dual, fault: match kind { 1 => Fault::Deadline(val), 2 => Fault::Nodes(val as usize), _ => Fault::None } });
+            v.push(Step { dual, fault: match kind { 1 => Fault::Deadline(val), 2 => Fault::Nodes(val as usize), 3 => Fault::NodesEnough(val as usize), 4 => Fault::Both(val & 0xffff_ffff, (val >> 32) as usize), _ => Fault::None } });
             off += 10;
         }
     }
@@ -1610,12 +2038,14 @@ fn iso_read_note() -> Vec<Step> {
 
 impl CStats {
     fn to_vec(&self) -> Vec<u64> {
-        vec![self.runs, self.errs_deadline, self.errs_nodes, self.oks, self.interior_errs, self.bound2_runs, self.bound2_second_errs, self.max_checkpoints, self.max_new_nodes]
+        vec![self.runs, self.errs_deadline, self.errs_nodes, self.oks, self.interior_errs, self.bound2_runs, self.bound2_second_errs, self.max_checkpoints, self.max_new_nodes, self.sufficient_budget_runs, self.both_budget_runs]
     }
     fn add_vec(&mut self, v: &[u64]) {
-        if v.len() < 9 {
+        if v.len() < 11 {
             return;
         }
+        self.sufficient_budget_runs += v[9];
+        self.both_budget_runs += v[10];
         self.runs += v[0];
         self.errs_deadline += v[1];
         self.errs_nodes += v[2];
@@ -1759,13 +2189,13 @@ fn c_cases(thorough: bool) -> Vec<(CCase, u8, bool)> {
     for var in 0..3u32 {
         for pol in [true, false] {
             for present in 0..3u8 {
-                v.push((CCase { nvars: 3, op: COp::Literal(var, pol, present) }, 2, true));
+                v.push((CCase::new(3, COp::Literal(var, pol, present)), 2, true));
             }
         }
     }
     // try_negate over all 256 functions
     for a in 0..=255u8 {
-        v.push((CCase { nvars: 3, op: COp::Negate(a) }, if thorough || reps.contains(&a) { 1 } else { 0 }, true));
+        v.push((CCase::new(3, COp::Negate(a)), if thorough || reps.contains(&a) { 1 } else { 0 }, true));
     }
     // try_exactly_one
     let nmax = if thorough { 6 } else { 4 };
@@ -1775,9 +2205,42 @@ fn c_cases(thorough: bool) -> Vec<(CCase, u8, bool)> {
                 let fwd: Vec<u32> = (0..k as u32).collect();
                 let mut rev = fwd.clone();
                 rev.reverse();
-                v.push((CCase { nvars: n, op: COp::Eo(fwd.clone(), pre) }, if k <= 3 { 1 } else { 0 }, k <= 4));
+                v.push((CCase::new(n, COp::Eo(fwd.clone(), pre, false)), if k <= 3 { 1 } else { 0 }, k <= 4));
                 if k >= 2 {
-                    v.push((CCase { nvars: n, op: COp::Eo(rev, pre) }, 0, k <= 4));
+                    v.push((CCase::new(n, COp::Eo(rev, pre, false)), 0, k <= 4));
+                }
+            }
+        }
+    }
+    // try_exactly_one over EVERY ordered list of distinct variables out of 4 (thorough: also out of 5,
+    // lists of <= 4), i.e. lists that skip the oldest / the newest variable and lists in mixed order:
+    // fresh, with the tail's diagram already built (inner caches hit), and with the listed variables
+    // declared ExclusiveGroup; under the ascending introduction order and under a permuted one
+    for (n, order) in [(4usize, vec![]), (4, vec![2u32, 0, 3, 1]), (5, vec![]), (5, vec![3u32, 1, 4, 0, 2])] {
+        if n == 5 && !thorough {
+            continue;
+        }
+        let vars: Vec<u32> = (0..n as u32).collect();
+        for mask in 1u32..(1 << n) {
+            let sub: Vec<u32> = vars.iter().copied().filter(|x| mask >> x & 1 == 1).collect();
+            if sub.len() > 4 {
+                continue;
+            }
+            for list in bf::permutations(&sub) {
+                let prefix_like = list.iter().enumerate().all(|(i, x)| *x == i as u32) || list.iter().rev().enumerate().all(|(i, x)| *x == i as u32);
+                let permuted = !order.is_empty();
+                for (pre, excl) in [(0u8, false), (2, false), (0, true)] {
+                    if prefix_like && !permuted && pre == 0 && !excl {
+                        continue; // already in the prefix family above
+                    }
+                    if list.len() == 1 && pre == 2 {
+                        continue;
+                    }
+                    if permuted && !thorough && (pre == 2 || excl) && list.len() != 3 {
+                        continue;
+                    }
+                    let b2 = if list.len() == 3 && pre == 0 && !excl && !permuted { 1 } else { 0 };
+                    v.push((CCase { nvars: n, order: order.clone(), op: COp::Eo(list.clone(), pre, excl) }, b2, list.len() <= 3 || thorough));
                 }
             }
         }
@@ -1786,7 +2249,7 @@ fn c_cases(thorough: bool) -> Vec<(CCase, u8, bool)> {
     for a in 0..16u8 {
         for b in 0..16u8 {
             for and in [true, false] {
-                v.push((CCase { nvars: 2, op: COp::Apply(two_var(a), two_var(b), and) }, if thorough { 2 } else { 0 }, true));
+                v.push((CCase::new(2, COp::Apply(two_var(a), two_var(b), and)), if thorough { 2 } else { 0 }, true));
             }
         }
     }
@@ -1812,11 +2275,90 @@ fn c_cases(thorough: bool) -> Vec<(CCase, u8, bool)> {
                 } else {
                     0
                 };
-                v.push((CCase { nvars: 3, op: COp::Apply(a, b, and) }, bound2, !thorough || a_rep || b_rep));
+                v.push((CCase::new(3, COp::Apply(a, b, and)), bound2, !thorough || a_rep || b_rep));
+            }
+        }
+    }
+    // try_apply over 3 variables under the other five introduction orders (the vtree position of
+    // each variable changes, so the same pair meets other same-vtree / descendant / LCA branches):
+    // the diverse functions squared; thorough also NPN-representative x NPN-representative
+    for order in ORDERS3.iter().skip(1) {
+        for a in 0..=255u8 {
+            for b in 0..=255u8 {
+                let div = diverse.contains(&a) && diverse.contains(&b);
+                let rr = reps.contains(&a) && reps.contains(&b);
+                if !(div || (thorough && rr)) {
+                    continue;
+                }
+                for and in [true, false] {
+                    v.push((CCase { nvars: 3, order: order.to_vec(), op: COp::Apply(a, b, and) }, 0, div));
+                }
+            }
+        }
+        for a in diverse {
+            v.push((CCase { nvars: 3, order: order.to_vec(), op: COp::Negate(a) }, 1, true));
+        }
+    }
+    // try_apply / try_negate over 4 and 5 variables: a family of structurally different operands
+    // (parity, majority, two disjoint conjunctions, exactly-one, a function of the oldest and the
+    // newest variable only, a chain implication), every ordered pair, both ops; ascending and
+    // descending introduction order
+    // (one 4-variable operation costs ~0.5 s CPU, one 5-variable operation several seconds: every k
+    // and every n, each on a fresh manager whose operands are rebuilt from minterms. quick: 4
+    // variables ascending: unordered pairs, both ops; 4 variables descending: unordered pairs, And;
+    // 5 variables ascending: 4 pairs. thorough: every ordered pair, both ops, both orders.)
+    for nv in [4usize, 5] {
+        let fam = wide_family(nv);
+        for (oi, order) in [Vec::new(), (0..nv as u32).rev().collect::<Vec<u32>>()].into_iter().enumerate() {
+            for (i, a) in fam.iter().enumerate() {
+                if thorough || (nv == 4 && oi == 0) || (nv == 5 && oi == 0 && i < 2) {
+                    v.push((CCase { nvars: nv, order: order.clone(), op: COp::NegateW(*a) }, if oi == 0 && (thorough || nv == 4) { 1 } else { 0 }, nv == 4 && thorough));
+                }
+                for (j, b) in fam.iter().enumerate() {
+                    if i == j {
+                        continue;
+                    }
+                    for and in [true, false] {
+                        let quick_pick = match (nv, oi) {
+                            (4, 0) => i < j,
+                            (4, _) => i < j && and,
+                            // parity x majority (And, Or), exactly-one x chain (And), disjoint-conjunctions x oldest-xor-newest (Or)
+                            (_, 0) => (i, j) == (0, 1) || ((i, j, and) == (3, 5, true)) || ((i, j, and) == (2, 4, false)),
+                            _ => false,
+                        };
+                        if !thorough && !quick_pick {
+                            continue;
+                        }
+                        let b2 = if thorough && nv == 4 && oi == 0 && and && [(0, 1), (2, 4), (3, 5)].contains(&(i, j)) { 1 } else { 0 };
+                        v.push((CCase { nvars: nv, order: order.clone(), op: COp::ApplyW(*a, *b, and) }, b2, thorough && nv == 4 && oi == 0));
+                    }
+                }
             }
         }
     }
     v
+}
+
+/// operands over nv in {4,5} variables as tables over the 6-position universe (independent of positions >= nv)
+fn wide_family(nv: usize) -> Vec<u64> {
+    let mk = |f: &dyn Fn(usize) -> bool| -> u64 {
+        let mut t = 0u64;
+        for m in 0..64usize {
+            if f(m & ((1 << nv) - 1)) {
+                t |= 1u64 << m;
+            }
+        }
+        t
+    };
+    let bit = |m: usize, i: usize| (m >> i) & 1 == 1;
+    vec![
+        mk(&|m| m.count_ones() % 2 == 1),                                                        // parity
+        mk(&|m| m.count_ones() as usize * 2 > nv),                                               // majority
+        mk(&|m| (bit(m, 0) && bit(m, 1)) || (2..nv).all(|i| bit(m, i))),                         // x0x1 | x2x3(x4)
+        mk(&|m| m.count_ones() == 1),                                                            // exactly one
+        mk(&|m| (bit(m, 0) || bit(m, nv - 1)) && !(bit(m, 0) && bit(m, nv - 1))),                // oldest xor newest
+        mk(&|m| (0..nv - 1).all(|i| !bit(m, i) || bit(m, i + 1))),                               // x_i -> x_{i+1} chain
+    ]
 }
 
 fn run_c(ctx: &Ctx, out: &mut ShardOut) {
@@ -1841,6 +2383,24 @@ fn run_c(ctx: &Ctx, out: &mut ShardOut) {
         out.count(&format!("c_operations_{}", case.opkind()), 1);
         if *bound2 > 0 {
             out.count("c_operations_with_bound2", 1);
+        }
+        if case.wide() {
+            out.count(&format!("c_operations_on_{}_variables", case.nvars), 1);
+        }
+        if !case.order.is_empty() {
+            out.count("c_operations_permuted_intro_order", 1);
+        }
+        if let COp::Eo(l, pre, excl) = &case.op {
+            let prefix_like = l.iter().enumerate().all(|(i, x)| *x == i as u32) || l.iter().rev().enumerate().all(|(i, x)| *x == i as u32);
+            if !prefix_like {
+                out.count("c_exactly_one_non_prefix_lists", 1);
+            }
+            if *pre == 2 {
+                out.count("c_exactly_one_tail_prebuilt", 1);
+            }
+            if *excl {
+                out.count("c_exactly_one_exclusive_kind", 1);
+            }
         }
         match c_pair_dyn(case, *bound2, *heavy, &mut stats) {
             Ok(()) => {
@@ -1869,6 +2429,8 @@ fn run_c(ctx: &Ctx, out: &mut ShardOut) {
     out.count("c_interior_exhaustions_then_manager_reused", stats.interior_errs);
     out.count("c_bound2_runs", stats.bound2_runs);
     out.count("c_bound2_second_exhaustions", stats.bound2_second_errs);
+    out.count("c_sufficient_node_budget_runs", stats.sufficient_budget_runs);
+    out.count("c_deadline_and_node_budget_runs", stats.both_budget_runs);
     out.max("max_c_checkpoints_of_one_operation", stats.max_checkpoints);
     out.max("max_c_new_nodes_of_one_operation", stats.max_new_nodes);
     out.outcome(&("C", stats.errs_deadline > 0, stats.errs_nodes > 0, stats.oks > 0));
@@ -1946,6 +2508,10 @@ fn replay(_ctx: &Ctx, case: &Value) -> ShardOut {
             }
         }
         Some("C") => {
+            if CCase::from_json(case).is_none() {
+                out.machinery_errors.push(format!("C07 replay: not a case of the part C enumeration (operands must be functions of the introduced variables, variables must be introduced): {}", case));
+                return out;
+            }
             // all k and all n for the recorded operation, several rounds (checkpoint order varies)
             for _ in 0..4 {
                 if let Some((tags, f)) = c_reexec(case) {
